@@ -56,8 +56,8 @@ func drawNetOps(t *rapid.T, label string, n, nIn, nSensors int, fast bool) []Net
 }
 
 func GenC13() *rapid.Generator[C13Case] {
-	cyc := genNet(NetCfg{Cyclic: true, ParallelLinks: true})
-	dag := genNet(NetCfg{})
+	cyc := genNet(NetCfg{Cyclic: true, ParallelLinks: true, Rename: true})
+	dag := genNet(NetCfg{Rename: true})
 	mod := genGenomeSpec(GenomeCfg{Modules: true, MinGenes: 1, SingleOutMod: true, ModestWeight: true, AllEnabled: false})
 	return rapid.Custom(func(t *rapid.T) C13Case {
 		c := C13Case{Fast: rapid.Bool().Draw(t, "fast solver")}
